@@ -20,6 +20,7 @@ RULE = (
     "clustering x {vectorised, scalar, scalar+blob, scalar+two blobs} x boundary types {none, periodic, reflective, both} x metric {ESS, vv 0.3, vv 2} x "
     "zero-likelihood region on/off x d in {1,2,3,6}; each row is one full Sampler.run on an instrumented target with a case seed. "
     "Non-trivial = a run in which some mutation call had both accepted and rejected walkers. distinct = distinct (row, seed)."
+    ' The *_full check draws a complete configuration with vlib.cfggen: every constructor option gets a generated value in every case (d, evaluation mode incl. one/two blobs, zero-likelihood region, narrow target, kernel, resampler, clustering, normalize, cluster_every, n_max_clusters, split_threshold, ess_ratio, ESS/volume-variation metric, n_particles incl. odd, n_steps/n_max_steps, periodic/reflective indices, pool kind, extra likelihood args/kwargs, random_state int/NumPy-int/None); the oracle is the same.'
 )
 ASSUMPTIONS = [
     "observation by wrapping the run methods of the four step objects, StateManager.commit_current_to_history and parallel_mcmc on the instance/module",
